@@ -71,7 +71,7 @@ pub fn run(ctx: &Ctx) -> i32 {
         let k = ds.len();
         // thorough tier bounds 2^k by skipping nothing: k <= 9 for w <= 8
         let mut already: HashSet<D> = HashSet::new(); obscured_digests(m, &mut already);
-        for mask in 0u32..(1u32 << k) {
+        for mask in families::masks(k) {
             let t: HashSet<D> = (0..k).filter(|i| mask >> i & 1 == 1).map(|i| ds[i]).collect();
             let tset = bind::dset(&t.iter().cloned().collect::<Vec<_>>());
             for revealing in [false, true] {
@@ -202,7 +202,7 @@ pub fn run(ctx: &Ctx) -> i32 {
     let acc = acc.merge(acc2);
     let evals = acc.get("elisions") + acc.get("variant_api_calls") + acc.get("second_pass_elisions") + acc.get("unelide_pairs");
     let cov = json!({"evaluations": evals,
-        "rule": "case = (tree with unique leaf markers, target subset incl. one absent digest, mode, action) compared with the model's elision semantics + byte-exact encoding for Elide + marker residue search; plus all (placeholder, candidate) unelide pairs; non-trivial = the model result hides at least one element",
+        "rule": "(all subsets for envelopes with at most 10 distinct digests - every tree of the weight-bounded families; for the hand-built decode-only shapes with more, the empty / singleton / pair / full target sets) case = (tree with unique leaf markers, target subset incl. one absent digest, mode, action) compared with the model's elision semantics + byte-exact encoding for Elide + marker residue search; plus all (placeholder, candidate) unelide pairs; non-trivial = the model result hides at least one element",
         "exhaustive": true,
         "bounds": {"tree_weight_marked": w, "second_pass_tree_weight": w2, "tree_weight_reused_markers": if th { 6 } else { 5 }, "unelide_family": envs.len()}});
     finish(ctx, acc, "exploration", cov, vec!["residue search looks for the dCBOR encoding of each hidden leaf (unique markers of >= 9 bytes, so a coincidental occurrence in ciphertext or a digest is negligible)".into(),
